@@ -25,6 +25,7 @@ import (
 //
 //	param:<name>  field:<T.F>  call:<callee full name>  const:<value>  global:<pkg.Name>
 //	len  cap  elem (element load)  recv-of:<method>  fv:<name>
+//
 // paramAtomSubst is set only while CheckGuard looks into a predicate helper (single-threaded use).
 var paramAtomSubst = map[*ssa.Parameter]map[string]bool{}
 
